@@ -32,13 +32,16 @@ type sweepReader struct {
 	w, cont uint32
 	k       int
 	badSize bool
+	fill    uint64
 }
 
 func (r *sweepReader) Read(p []byte) (int, error) {
 	if len(p) != 4 {
+		// (never a constant filler: a sampler may reject it for ever)
 		r.badSize = true
 		for i := range p {
-			p[i] = 0x5a
+			r.fill = ev.Mix64(r.fill, uint64(i)+1)
+			p[i] = byte(r.fill >> 24)
 		}
 		return len(p), nil
 	}
@@ -93,6 +96,11 @@ func sweepRange(n uint32, lo, hi uint64, hist []uint32, bitset []uint64, small8 
 		rd.w = uint32(v)
 		rd.k = 0
 		r := spg.VerifRandomUint32n(n)
+		if rd.badSize {
+			// the sweep identifies one read with one 32-bit word
+			res.Err = "inconclusive: random source read with a size other than 4 bytes"
+			return
+		}
 		if rd.k == 1 || (n == 1 && rd.k == 0) { // a single alternative may be answered without reading
 
 			if r >= n {
@@ -276,19 +284,23 @@ func sharedSweep(t *testing.T, n uint32, idx int) {
 // own bound and the words it read
 
 type cyclicReader struct {
-	words []uint32
-	i     uint64
+	words   []uint32
+	i       uint64
+	badSize uint32 // set when a read is not one 32-bit word (the accounting then does not apply)
 }
 
 func (r *cyclicReader) Read(p []byte) (int, error) {
 	k := atomic.AddUint64(&r.i, 1)
 	w := r.words[k%uint64(len(r.words))]
+	if len(p) != 4 {
+		atomic.StoreUint32(&r.badSize, 1)
+	}
 	if len(p) >= 4 {
 		binary.BigEndian.PutUint32(p, w)
 		return 4, nil
 	}
 	for i := range p {
-		p[i] = byte(w >> (8 * uint(3-i)))
+		p[i] = byte(ev.Mix64(uint64(w), k+uint64(i)) >> 24) // not judged any more: just never constant
 	}
 	return len(p), nil
 }
@@ -345,7 +357,7 @@ func c01ConcRun(c c01Conc) error {
 				bad.Store(fmt.Sprintf("panic: %v", r))
 			}
 		}()
-		for i := 0; i < 20000 && bad.Load() == nil; i++ {
+		for i := 0; i < 20000 && bad.Load() == nil && atomic.LoadUint32(&rd.badSize) == 0; i++ {
 			if r := spg.VerifRandomUint32n(n); !ok[r] {
 				bad.Store(fmt.Sprintf("a draw with bound %d returned %d while another goroutine drew with bound %d; no word the source handed out (%#x) gives that result for bound %d on its own", n, r, c.N1^c.N2^n, W, n))
 				return
@@ -358,6 +370,12 @@ func c01ConcRun(c c01Conc) error {
 	go run(c.N1, a1)
 	go run(c.N2, a2)
 	wg.Wait()
+	if atomic.LoadUint32(&rd.badSize) != 0 {
+		// words are not read one per call: pieces of different words mix
+		// legitimately between goroutines and the accounting does not apply
+		ev.Class("source_not_read_word_by_word_not_judged")
+		return nil
+	}
 	if v := bad.Load(); v != nil {
 		return fmt.Errorf("%s", v.(string))
 	}
